@@ -65,6 +65,7 @@ def payload(version, depth, fp, index, chain, key33):
 
 
 def _cases_core(rng, tier):
+    prev_pl = [None]
     n = 25 if tier == "quick" else 1500
     for i in range(n):
         spec, k = node_spec(rng, prv=True)
@@ -98,6 +99,10 @@ def _cases_core(rng, tier):
             yield "xk_parse %s %s s %s" % (cls, t, sx(s)), "parse-str-" + name
             yield "xk_parse %s %s b %s" % (cls, t, hx(pl)), "parse-bytes"
             yield "xk_parse %s %s io %s" % (cls, t, hx(pl)), "parse-stream"
+            # a stream that is not at position 0: a header or an earlier record has been read from it already
+            pre = rng.choice([prev_pl[0] or pl, bytes(rng.getrandbits(8) for _ in range(rng.choice([1, 2, 4, 78, 100])))])
+            yield "xk_parse %s %s io@%d %s" % (cls, t, len(pre), hx(pre + pl)), "parse-stream-positioned"
+            prev_pl[0] = pl
             yield "wallet xkey:%s" % sx(s), "wallet-from-" + name
             # unknown version: one bit flipped
             bad = v ^ (1 << rng.randrange(32))
@@ -166,6 +171,8 @@ def oracle(line, out):
     if op == "xk_parse":
         cls, t, form, data = tok[1:5]
         pl = b58check_dec(unstr(data)) if form == "s" else unhex(data)
+        if form.startswith("io@"):
+            pl = pl[int(form[3:]):]
         if v is None:
             return "parsing a valid 78-byte extended key failed (form %s)" % form
         f = v.split(" ")
